@@ -97,6 +97,35 @@ func (e *Engine) planValue(x *Exec, t *Term, ty types.Type, depth int, nElems in
 		return p
 	case *types.Interface:
 		p := &valuePlan{kind: "iface", term: t}
+		hasM := func(name string) bool {
+			for i := 0; i < u.NumMethods(); i++ {
+				if u.Method(i).Name() == name {
+					return true
+				}
+			}
+			return false
+		}
+		if hasM("Read") && !hasM("ReadBits") {
+			// abstract file
+			if _, ok := e.ufuncs["FLen"]; ok {
+				p.kind = "file"
+				p.rlen = App("FLen", SInt, t)
+				if _, ok := e.ufuncs["FByte"]; ok {
+					for k := 0; k < 64; k++ {
+						p.rbit = append(p.rbit, App("FByte", SBV(8), t, IntLit(int64(k))))
+					}
+				} else if _, ok := e.ufuncs["FBit"]; ok {
+					for k := 0; k < 512; k++ {
+						p.rbit = append(p.rbit, App("FBit", SBool, t, IntLit(int64(k))))
+					}
+					p.w = 1
+				}
+				if m, ok := x.heap0["G$fpos"]; ok {
+					p.cur = Select(m, t)
+				}
+				return p
+			}
+		}
 		if _, ok := e.ufuncs["RLen"]; ok {
 			p.rlen = App("RLen", SInt, t)
 			if _, ok := e.ufuncs["RBit"]; ok {
@@ -148,7 +177,7 @@ func (p *valuePlan) terms(out *[]*Term) {
 	case "ptr":
 		*out = append(*out, p.term)
 		p.obj.terms(out)
-	case "iface":
+	case "iface", "file":
 		*out = append(*out, p.term)
 		if p.rlen != nil {
 			*out = append(*out, p.rlen)
@@ -284,6 +313,50 @@ func (mr *modelReader) read(p *valuePlan) (*govcrt.JVal, string) {
 			mr.objs[id] = ov
 		}
 		return &govcrt.JVal{Ref: id}, ""
+	case "file":
+		s, _ := mr.get(p.term)
+		r, _ := modelInt(s)
+		if r == nil || r.Sign() == 0 {
+			return &govcrt.JVal{Nil: true}, ""
+		}
+		ls, _ := mr.get(p.rlen)
+		l, _ := modelInt(ls)
+		if l == nil {
+			l = big.NewInt(0)
+		}
+		if l.Cmp(big.NewInt(64)) > 0 {
+			return nil, fmt.Sprintf("abstract file of %s bytes is too large to replay", l)
+		}
+		var sb strings.Builder
+		n := int(l.Int64())
+		if p.w == 1 {
+			for k := 0; k < 8*n && k < len(p.rbit); k++ {
+				v, _ := mr.get(p.rbit[k])
+				if v == "true" {
+					sb.WriteByte('1')
+				} else {
+					sb.WriteByte('0')
+				}
+			}
+		} else {
+			for k := 0; k < n && k < len(p.rbit); k++ {
+				v, _ := mr.get(p.rbit[k])
+				b, _ := modelInt(v)
+				if b == nil {
+					b = big.NewInt(0)
+				}
+				sb.WriteString(fmt.Sprintf("%08b", b.Int64()&0xff))
+			}
+		}
+		st := &govcrt.Stub{Kind: "file", Bits: sb.String()}
+		if p.cur != nil {
+			if cs, ok := mr.get(p.cur); ok {
+				if c, ok := modelInt(cs); ok && c.IsInt64() {
+					st.Cur = c.Int64()
+				}
+			}
+		}
+		return &govcrt.JVal{Stub: st}, ""
 	case "iface":
 		s, _ := mr.get(p.term)
 		r, _ := modelInt(s)
@@ -443,6 +516,31 @@ func (e *Engine) tryReplay(vc *VC, o *Obligation, fres *FuncResult, repo string,
 		case *types.Interface:
 			if _, ok := e.ufuncs["RLen"]; ok {
 				hints = append(hints, Le(App("RLen", SInt, in.T), IntLit(200)))
+			}
+		case *types.Pointer:
+			// receiver objects with an abstract file or reader inside: keep those small as well
+			if st, ok := in.Ty.Underlying().(*types.Pointer).Elem().Underlying().(*types.Struct); ok {
+				for i := 0; i < st.NumFields(); i++ {
+					if _, isI := st.Field(i).Type().Underlying().(*types.Interface); isI {
+						pl := vc.X.fieldPlace(in.Ty.Underlying().(*types.Pointer).Elem(), i, in.T)
+						if m, ok := vc.X.heap0[pl.Comp]; ok {
+							f := Select(m, in.T)
+							if _, ok := e.ufuncs["FLen"]; ok {
+								hints = append(hints, Le(App("FLen", SInt, f), IntLit(32)))
+							}
+							if _, ok := e.ufuncs["RLen"]; ok {
+								hints = append(hints, Le(App("RLen", SInt, f), IntLit(200)))
+							}
+						}
+					}
+					if _, isS := st.Field(i).Type().Underlying().(*types.Slice); isS {
+						pl := vc.X.fieldPlace(in.Ty.Underlying().(*types.Pointer).Elem(), i, in.T)
+						if m, ok := vc.X.heap0[pl.Comp]; ok {
+							f := Select(m, in.T)
+							hints = append(hints, Le(SLen(f), IntLit(64)), Le(SOff(f), IntLit(16)), Le(SCap(f), IntLit(128)))
+						}
+					}
+				}
 			}
 		}
 	}
@@ -630,6 +728,7 @@ func RunReplay(repo, rfile, tmp string) (string, string) {
 	test := fmt.Sprintf(`package %s
 
 import (
+	"bytes"
 	"io"
 	"reflect"
 	"testing"
@@ -645,6 +744,17 @@ func TestGovcReplay(t *testing.T) {
 			if c == '1' {
 				buf[i/8] |= 1 << (7 - uint(i%%8))
 			}
+		}
+		if s.Kind == "file" {
+			fr := bytes.NewReader(buf)
+			if s.Cur > 0 {
+				_, _ = fr.Seek(s.Cur, io.SeekStart)
+			}
+			v := reflect.ValueOf(fr)
+			if !v.Type().AssignableTo(want) {
+				return reflect.Value{}, false
+			}
+			return v, true
 		}
 		r := %s(buf, int64(n))
 		if s.Cur > 0 {
